@@ -152,6 +152,20 @@ def check_theorems(prop):
     return res
 
 
+def run_coqchk(prop):
+    """thorough tier: re-check the compiled theorem file and everything it depends on with Coq's independent checker;
+    -o lists the axioms of the whole dependency cone (expected: none)."""
+    t0 = time.time()
+    try:
+        rc, out = sh(['coqchk', '-silent', '-o', '-Q', '.', 'MLPE', 'MLPE.Properties.' + prop], timeout=3600, cwd=os.path.join(ROOT, 'coq'))
+    except subprocess.TimeoutExpired:
+        return dict(ok=False, error='coqchk timed out', wall_s=round(time.time() - t0, 1))
+    m = re.search(r'\* Axioms:\s*(.*?)\n\s*\n', out, re.S)
+    axioms = (m.group(1).strip() if m else 'not reported')
+    ok = rc == 0 and axioms == '<none>' and 'type-in-type: <none>' in out.replace('\n', ' ').replace('  ', ' ')
+    return dict(ok=bool(ok), rc=rc, axioms=axioms, wall_s=round(time.time() - t0, 1), tail=out[-600:])
+
+
 def write_replay(prop, idx, case):
     d = os.path.join(ROOT, 'evidence', 'replay')
     os.makedirs(d, exist_ok=True)
@@ -298,6 +312,11 @@ def main():
     thm = check_theorems(prop) if ok_build else dict(ok=False, theorems=[], error='not built', file=theorem_file(prop))
     if not thm['ok']:
         obligations_broken.append('theorem file %s does not check: %s' % (thm.get('file'), thm.get('error', 'missing')))
+    chk = None
+    if tier == 'thorough' and ok_build and thm['ok']:
+        chk = run_coqchk(prop)
+        if not chk['ok']:
+            obligations_broken.append('coqchk does not accept Properties/%s.vo with an empty axiom list: %s' % (prop, json.dumps(chk)[:300]))
 
     budget = {'quick': 1200, 'thorough': 16000}[tier]
     agg = dict(stats=collections.Counter(), dist=collections.Counter(), violations=[], k2_broken=[], known_hits=collections.Counter(),
@@ -368,6 +387,7 @@ def main():
                   trusted_base=TRUSTED_BASE,
                   theorems=thm.get('theorems', []),
                   print_assumptions=dict(closed=thm.get('closed', 0), axioms=thm.get('axioms', [])),
+                  coqchk=chk if chk is not None else dict(note='run in the thorough tier only'),
                   evaluations=int(st.get('evaluations', 0)),
                   distinct_nontrivial=int(agg['distinct_nontrivial']),
                   rule=agg.get('rule') or 'programs grown by harness/gen.py (profiles and collaborators per harness/props.py), 2-4 random schedules each '
@@ -385,6 +405,7 @@ def main():
                            'case, with the launch / successor orders recorded from the real chart',
                       runs_of_plain_programs=int(st.get('plain_programs_runs', 0)),
                       hypotheses_hold=int(st.get('plain_hypotheses_hold', 0)),
+                      hypotheses_of_C06_evaluated=int(st.get('plain_c06_hypotheses_evaluated', 0)),
                       hypotheses_of_C06_hold=int(st.get('plain_c06_hypotheses_hold', 0)),
                       deadlocks_of_the_real_engine_on_them=int(st.get('plain_deadlocks', 0))),
                   input_distribution={k: v for k, v in sorted(agg['dist'].items())},
